@@ -9,7 +9,11 @@
 mod common;
 mod engine;
 mod gen;
+mod graph;
+mod inherit;
 mod minimize;
+mod reggen;
+mod regsim;
 mod rendersim;
 mod rng;
 mod sval;
@@ -25,11 +29,22 @@ use std::io::Write;
 pub enum Scn {
     #[serde(rename = "rendersim")]
     Render(rendersim::RenderScenario),
+    #[serde(rename = "regsim")]
+    Reg(regsim::RegScenario),
 }
 
-fn generate(engine: &str, _family: &str, prop: &str, tier: &str, seed: u64) -> Scn {
+fn generate(engine: &str, family: &str, prop: &str, tier: &str, seed: u64) -> Scn {
     match engine {
         "rendersim" => Scn::Render(rendersim::generate(seed, tier, prop)),
+        "regsim" => Scn::Reg(match family {
+            "general" => reggen::generate(seed, tier, prop),
+            "graph" => graph::generate(seed, tier, prop),
+            "inherit" => inherit::generate(seed, tier, prop),
+            other => {
+                eprintln!("unknown regsim family {}", other);
+                std::process::exit(2);
+            }
+        }),
         other => {
             eprintln!("unknown engine {}", other);
             std::process::exit(2);
@@ -40,12 +55,14 @@ fn generate(engine: &str, _family: &str, prop: &str, tier: &str, seed: u64) -> S
 fn execute(s: &Scn, stats: &mut Stats) -> Outcome {
     match s {
         Scn::Render(sc) => rendersim::execute(sc, stats),
+        Scn::Reg(sc) => regsim::execute(sc, stats),
     }
 }
 
 fn shrink(s: &Scn) -> Vec<Scn> {
     match s {
         Scn::Render(sc) => rendersim::shrink_candidates(sc).into_iter().map(Scn::Render).collect(),
+        Scn::Reg(sc) => regsim::shrink_candidates(sc).into_iter().map(Scn::Reg).collect(),
     }
 }
 
@@ -104,6 +121,7 @@ struct WorkerReport {
     distinct: Vec<u64>,
     distinct_named: BTreeMap<String, Vec<u64>>,
     violations: Vec<ReplayFile>,
+    deferred: Vec<ReplayFile>,
     fingerprints: Vec<(u64, u64)>,
     runs: u64,
 }
@@ -128,6 +146,7 @@ fn cmd_run(m: BTreeMap<String, String>) -> i32 {
         engine::install_hooks();
         let mut stats = Stats::default();
         let mut violations: Vec<ReplayFile> = Vec::new();
+        let mut deferred: Vec<ReplayFile> = Vec::new();
         let mut fps = Vec::new();
         let hb_path = format!("{}/worker-{}.hb", out, offset);
         let mut runs = 0u64;
@@ -144,6 +163,15 @@ fn cmd_run(m: BTreeMap<String, String>) -> i32 {
             if want_fp {
                 fps.push((i, outcome.fingerprint));
             }
+            for d in outcome.deferred {
+                let shape = d.get("crash_shape").and_then(|s| s.as_str()).unwrap_or("").to_string();
+                if deferred.iter().filter(|r| r.scenario.get("crash_shape").and_then(|s| s.as_str()) == Some(shape.as_str())).count() < 2 {
+                    let mut rf = replay_file(&engine, &prop, &tier, master, i, seed, &scn, None);
+                    rf.scenario = d;
+                    rf.note = "sacrificial-child scenario: renders a state whose effective include graph is cyclic".into();
+                    deferred.push(rf);
+                }
+            }
             for v in outcome.violations {
                 stats.inc("violations_seen");
                 // keep one replay file per (property, invariant, signature) class per worker
@@ -158,7 +186,7 @@ fn cmd_run(m: BTreeMap<String, String>) -> i32 {
         stats.add("end_of_render_hook_calls", engine::end_renders());
         let distinct: Vec<u64> = stats.distinct.iter().cloned().collect();
         let distinct_named = stats.distinct_named.iter().map(|(k, v)| (k.clone(), v.iter().cloned().collect())).collect();
-        (WorkerReport { stats, distinct, distinct_named, violations, fingerprints: fps, runs }, out, offset)
+        (WorkerReport { stats, distinct, distinct_named, violations, deferred, fingerprints: fps, runs }, out, offset)
     });
     let (report, out, offset) = report;
     let path = format!("{}/worker-{}.json", out, offset);
@@ -275,8 +303,40 @@ fn main() {
             let budget = args.get(4).and_then(|s| s.parse().ok()).unwrap_or(30);
             cmd_minimize(&args[2], &args[3], budget)
         }
+        "dbg-graph" => {
+            let (_rf, scn) = load_replay(&args[2]);
+            if let Scn::Reg(sc) = scn {
+                on_big_stack(move || {
+                    engine::install_hooks();
+                    let mut t = engine::new_tera(&sc.config);
+                    let mut m: std::collections::BTreeMap<String, String> = Default::default();
+                    for op in &sc.ops {
+                        let items: Vec<(String, String)> = match op {
+                            regsim::Op::AddRaw { name, source } => vec![(name.clone(), source.clone())],
+                            regsim::Op::AddBatch { items } => items.clone(),
+                            _ => vec![],
+                        };
+                        let r = t.add_raw_templates(items.iter().map(|(a, b)| (a.as_str(), b.as_str())));
+                        println!("op {:?} -> {}", items.iter().map(|x| x.0.clone()).collect::<Vec<_>>(), r.is_ok());
+                        if r.is_ok() {
+                            for (a, b) in items {
+                                m.insert(a, b);
+                            }
+                        }
+                    }
+                    for (k, v) in &m {
+                        println!("{} = {}", k, v);
+                    }
+                    let gm = graph::GraphModel { nodes: m.iter().map(|(k, v)| (k.clone(), graph::parse_node(v))).collect(), prefixes: sc.config.prefixes.clone() };
+                    println!("verdict {:?}", gm.verdict());
+                    println!("edges(with comps) {:?}", gm.effective_edges(true));
+                    println!("edges(no comps) {:?}", gm.effective_edges(false));
+                });
+            }
+            0
+        }
         "engines" => {
-            println!("rendersim");
+            println!("rendersim regsim");
             0
         }
         "dbg-gen" => {
